@@ -113,6 +113,7 @@ pub fn crashrun(args: &Args) -> i32 {
         obs_seed: seed ^ case,
         scan_cases: 0,
         fifo: false,
+        fifo_desc: false,
         known: crate::load_known(args),
         focus: None,
         filter_large_len: 300,
